@@ -137,9 +137,9 @@ func specPrec(s *corpus.Spec) (tok map[string]int, assoc map[string]string, rule
 
 func c03Corpus(c *Ctx) []*corpus.Spec {
 	specs := corpus.Fixed()
-	n := 30
+	n := 80
 	if c.Thorough() {
-		n = 120
+		n = 200
 	}
 	specs = append(specs, corpus.Random(c.Seed, n)...)
 	if c.Thorough() {
